@@ -74,9 +74,13 @@ def w203_bounded(sess: Session, why: str):
     from collections import Counter
     func = V._codes['W203']
     shapes = [(lem, ss) for lem in 'ab' for n in range(3) for ss in itertools.product('xy', repeat=n)]
+    # entries with three senses (x, y, x: the repeated synset is not adjacent), in lexicons of <= 2 entries
+    shapes3 = shapes + [(lem, ss) for lem in 'ab' for ss in itertools.product('xy', repeat=3)]
+    combos = [c for n in range(4) for c in itertools.product(shapes, repeat=n)] + \
+        [c for n in range(1, 3) for c in itertools.product(shapes3, repeat=n) if any(len(ss) == 3 for _, ss in c)]
     cases, bad = 0, []
-    for n in range(4):
-        for combo in itertools.product(shapes, repeat=n):
+    for _once in (0,):
+        for combo in combos:
             entries = [{'id': f'e{i}', 'lemma': {'writtenForm': lem, 'partOfSpeech': 'n'},
                         'senses': [{'id': f'e{i}s{j}', 'synset': x} for j, x in enumerate(ss)]}
                        for i, (lem, ss) in enumerate(combo)]
@@ -95,7 +99,7 @@ def w203_bounded(sess: Session, why: str):
                 bad.append({'entries (lemma, synsets of its senses)': combo, 'reported': sorted(got),
                             'documented': sorted(want)})
     sess.add_bounded('wn.validate._redundant_entry (W203)', 'every lexicon with <= 3 entries x lemma in {a,b} x <= 2 '
-                     'senses in synsets {x,y}', cases, f'native execution against the documented condition (symbolic '
+                     'senses in synsets {x,y}, and <= 2 entries with 3 senses', cases, f'native execution against the documented condition (symbolic '
                      f'route not available: {why})', not bad)
     if bad:
         sess.violation_direct('wn.validate._redundant_entry:exact:bounded', 'W203 does not list exactly the lemmas of '
